@@ -167,7 +167,6 @@ static int op_cmp(int argc, tok_t *a, out_t *o) {
 static int op_eq(int argc, tok_t *a, out_t *o) {
   NEED(argc == 9 && is_opnd(a) && is_opnd(a + 4) && a[8].kind == T_NUM && !a[8].neg && a[8].n <= 1);
   NEED(tok_long(&a[1]) == 0 || a[3].d[a[3].n - 1] != 0); NEED(tok_long(&a[5]) == 0 || a[7].d[a[7].n - 1] != 0);
-  NEED(tok_ulong(&a[8]) >= 1);
   fv_t u, v; fv_opnd(&u, a, -1); fv_opnd(&v, a + 4, -1);
   out_long(o, mpf_eq(u.f, v.f, tok_ulong(&a[8])) != 0); fv_free(&u); fv_free(&v); return 0;
 }
